@@ -204,6 +204,20 @@ impl World {
 
     /// execute one op on the real code; returns the observed output
     pub fn exec(&mut self, op: &str) -> String {
+        // replay files carry, behind ` ;; `, the choices (hash-map orders, random draws) the
+        // implementation made when the case was recorded: they are made again (hook H6), so
+        // that a replay does not depend on this process's hash seeds and random numbers
+        let (op, forced) = match op.split_once(" ;; ") {
+            Some((o, f)) => (o, f.split(" ; ").map(|x| x.trim().to_string()).collect::<Vec<_>>()),
+            None => (op, vec![]),
+        };
+        verif::force_choices(forced);
+        let out = self.exec_op(op);
+        verif::force_choices(vec![]);
+        out
+    }
+
+    fn exec_op(&mut self, op: &str) -> String {
         // a trailing `@L` names the link on whose behalf a signal is sent (for the monitors only)
         let t: Vec<&str> = op.split_whitespace().filter(|x| !x.starts_with('@')).collect();
         if t.is_empty() {
@@ -236,7 +250,9 @@ impl World {
         if self.dead {
             return "DEAD".into();
         }
+        crate::util::watch_op(Some(op));
         let r = catch_unwind(AssertUnwindSafe(|| self.exec_inner(&t)));
+        crate::util::watch_op(None);
         let choices = verif::take_choices();
         let mut out = match r {
             Ok(s) => s,
@@ -336,6 +352,7 @@ impl World {
 
 pub fn run(o: &Opts) {
     let mut w = o.writer();
+    crate::util::start_watchdog(20);
     if let Some(p) = &o.replay {
         let mut world = World::new();
         for line in std::fs::read_to_string(p).expect("replay file").lines() {
@@ -348,7 +365,8 @@ pub fn run(o: &Opts) {
                 world = World::new();
                 continue;
             }
-            writeln!(w, "{} => {}", op, world.exec(op)).unwrap();
+            let shown = op.split(" ;; ").next().unwrap();
+            writeln!(w, "{} => {}", shown, world.exec(op)).unwrap();
         }
         return;
     }
